@@ -390,8 +390,6 @@ def run(ctx):
     b, _exe = _build("c07")
     try:
         # -- firmware: full space inside the driver, one HSN per slice
-        import time
-        tm, t0 = {}, time.perf_counter()
         tot, fwseen = {}, set()
         slices = [["full", h, h + 1] for h in range(64)] + [["hsn0"]]
         for what, (rc, out, err) in zip(slices, ctx.pmap(_fw_run, slices)):
@@ -405,7 +403,6 @@ def run(ctx):
         fw_expected = 64 * sum(len(maio_set(n)) for n in range(1, 65)) * len(FULL_FNS) \
             + sum(64 * len(hsn0_fns(n)) for n in range(1, 65))
 
-        tm["firmware"] = round(time.perf_counter() - t0, 1)
         # -- python: reduced space, three ways
         pyseen = set()
         for res in ctx.pmap(_py_red, list(range(1, 65))):
@@ -413,7 +410,6 @@ def run(ctx):
         # -- python: HSN 0
         for res in ctx.pmap(_py_hsn0, list(range(1, 65))):
             _take_py(ctx, res, pyseen)
-        tm["python_reduced_hsn0"] = round(time.perf_counter() - t0, 1)
         # -- python: full space (quick: the N of RED_N; thorough: every N)
         ns = RED_N if ctx.quick else tuple(range(1, 65))
         blk = 8 if ctx.quick else 16
@@ -421,15 +417,12 @@ def run(ctx):
         items = [(n, lo, min(lo + blk, 64), fm[n]) for n in ns for lo in range(1, 64, blk)]
         for res in ctx.pmap(_py_full, items):
             _take_py(ctx, res)
-        tm["python_full"] = round(time.perf_counter() - t0, 1)
         # -- transceiver: rx/tx pair selection
         trxseen = set()
         for res in ctx.pmap(_py_trx, list(range(1, 65)), chunksize=4):
             trxseen.update(res.pop("seen_pairs"))
             ctx.merge(res)
 
-        tm["transceiver"] = round(time.perf_counter() - t0, 1)
-        c["wall_s_cumulative_by_phase"] = tm
         c["python_distinct_n_mai"] = len(pyseen)
         c["transceiver_distinct_n_mai"] = len(trxseen)
         c["distinct_n_mai_outcomes"] = len(fwseen | pyseen)
